@@ -19,6 +19,24 @@ def mk(t):
     raise ValueError(t)
 
 
+def mk_shared(t, memo=None):
+    """Like mk, but structurally equal subtrees become the *same* object (a = Symbol('a'); Concat(a, Concat(b, a))): expressions are values,
+    and code that builds them by hand shares subterms."""
+    memo = {} if memo is None else memo
+    key = repr(t)
+    if key not in memo:
+        k = t[0]
+        if k in ("0", "1", "s"):
+            memo[key] = mk(t)
+        elif k == "*":
+            memo[key] = R.Iteration(mk_shared(t[1], memo))
+        elif k == "+":
+            memo[key] = R.Sum(mk_shared(t[1], memo), mk_shared(t[2], memo))
+        else:
+            memo[key] = R.Concat(mk_shared(t[1], memo), mk_shared(t[2], memo))
+    return memo[key]
+
+
 def snap(r):
     if isinstance(r, R.Zero):
         return ["0"]
